@@ -33,6 +33,7 @@ fn parse_sink(s: &str) -> Option<Sink> {
         return None;
     }
     if s == "info" { return Some(Sink::Info); }
+    if let Some(r) = s.strip_prefix("swapr") { return r.parse().ok().map(Sink::SwapRaw); }
     if let Some(r) = s.strip_prefix("swap") { return r.parse().ok().map(Sink::Swap); }
     None
 }
